@@ -911,7 +911,16 @@ func (r *runner) run(dir string) {
 		p.Unord = []string{}
 	}
 	bal0, _, _ := lockstep.Balances(a)
-	init := map[string]interface{}{"ev": "Init", "name": p.Name, "admins": admins, "nadmins": 4, "h": int(a.Height()), "bal": bal0, "grant": 100000000,
+	black := []map[string]interface{}{}
+	for sv, srcs := range p.Black {
+		for _, b := range strings.Split(srcs, ",") {
+			if b != "" {
+				black = append(black, map[string]interface{}{"svc": full(a, sv), "src": b})
+			}
+		}
+	}
+	sort.Slice(black, func(i, j int) bool { return fmt.Sprint(black[i]) < fmt.Sprint(black[j]) })
+	init := map[string]interface{}{"ev": "Init", "black": black, "name": p.Name, "admins": admins, "nadmins": 4, "h": int(a.Height()), "bal": bal0, "grant": 100000000,
 		"setupEqual": pair.SetupEqual(), "bxh": a.BxhID(), "svcs": svcs, "unordered": p.Unord, "audit": p.Audit,
 		"replicas": len(r.reps), "genesisRestart": genesisRestart}
 	for k, v := range r.observe(a, nil) {
@@ -1051,6 +1060,15 @@ func genPlan(rng *rand.Rand, name string, mode string) *Plan {
 	}
 	if rng.Intn(5) == 0 { // one service is registered as unordered ("batch"): no index check towards it, batch receipts from it
 		p.Unord = []string{svcs[rng.Intn(len(svcs))]}
+	}
+	if rng.Intn(4) == 0 { // one service does not let one of the others call it (its requests must begin failed)
+		i, j := rng.Intn(len(svcs)), rng.Intn(len(svcs))
+		if i > j {
+			i, j = j, i
+		}
+		if i != j { // the blocked service has to be registered before the one that blocks it
+			p.Black[svcs[j]] = "1356:" + svcs[i]
+		}
 	}
 	next := map[string]uint64{}  // next request index per pair (generator's own bookkeeping, not an oracle)
 	nextR := map[string]uint64{} // next receipt index per pair
